@@ -199,6 +199,14 @@ pub fn step(ex: &mut Exec, st: &mut L1State, op: &str, toks: &[&str]) -> Option<
                         if q != p {
                             ex.fail_tag("C19", "roundtrip-differs", format!("{:?}: the honest history proof of epoch {ep} decodes to a DIFFERENT value than was encoded", toks));
                         }
+                        // ... in both verification modes (a history with tombstoned entries verifies only when missing
+                        // values are allowed)
+                        let allow = HistoryVerificationParams::AllowMissingValues { history_params: HistoryParams::Complete };
+                        let a2 = inst.verify_history(root, ep, &u, p.clone(), allow).ok();
+                        let b2 = inst.verify_history(root, ep, &u, q.clone(), allow).ok();
+                        if a2 != b2 {
+                            ex.fail_tag("C19", "decoded-verifies-differently", format!("{:?}: with missing values allowed the original history proof verifies to {} entries, the decoded one to {}", toks, a2.map(|v| v.len() as i64).unwrap_or(-1), b2.map(|v| v.len() as i64).unwrap_or(-1)));
+                        }
                         let a = inst.verify_history(root, ep, &u, p, params).ok();
                         let b = inst.verify_history(root, ep, &u, q, params).ok();
                         if a != b {
